@@ -48,6 +48,7 @@ OInit == [cfg |-> [ka |-> 0], opened |-> FALSE, now |-> 0,
           final |-> FALSE,
           closedAt |-> -1, eofAt |-> -1, hdone |-> FALSE, hexc |-> "none", hdoneAt |-> -1,
           reqs |-> Empty, order |-> <<>>, apps |-> Empty, wire |-> Empty, acc |-> Empty,
+          accFirst |-> Empty,
           wireErrs |-> 0, loopErrs |-> 0, excLogs |-> 0, goaway |-> 0,
           lastByteAt |-> 0, nstarted |-> 0, startOrder |-> <<>>,
           endOrder |-> <<>>, n |-> 0]
@@ -162,7 +163,8 @@ OStep(o0, ev) ==
       [] ev.e = "handler_done" -> [o EXCEPT !.hdone = TRUE, !.hexc = ev.exc, !.hdoneAt = ev.now]
       [] ev.e = "loop_error" -> [o EXCEPT !.loopErrs = @ + 1]
       [] ev.e = "log" ->
-            IF ev.kind = "access" THEN [o EXCEPT !.acc = Put(@, ev.app, Acc(o, ev.app) + 1)]
+            IF ev.kind = "access" THEN [o EXCEPT !.acc = Put(@, ev.app, Acc(o, ev.app) + 1),
+                                                 !.accFirst = IF ev.app \in DOMAIN @ THEN @ ELSE Put(@, ev.app, ev.status)]
             ELSE IF ev.kind = "exception" THEN [o EXCEPT !.excLogs = @ + 1]
             ELSE o
       [] ev.e = "quiescent" -> [o EXCEPT !.now = Max(@, ev.now)]
